@@ -78,6 +78,9 @@ func init() {
 		}
 		nops := t.int()
 		out := []string{}
+		var keptPw []*spg.Password
+		var keptSnap []string
+		pwSnap := func(p *spg.Password) string { return showTokens(p.Tokens()) + "|" + p.String() + "|" + f32(p.Entropy) }
 		for j := 0; j < nops; j++ {
 			opk := t.next()
 			h := t.int()
@@ -119,12 +122,20 @@ func init() {
 				switch opk {
 				case "gen":
 					install(src)
+					var p *spg.Password
+					var err error
 					if o.char != nil {
-						p, err := o.char.Generate()
-						return showPassword(p, err)
+						p, err = o.char.Generate()
+					} else {
+						p, err = o.wl.Generate()
 					}
-					p, err := o.wl.Generate()
-					return showPassword(p, err)
+					shown := showPassword(p, err)
+					if p != nil && err == nil {
+						// the caller keeps what it was given: a result is its own, whatever is called later
+						keptPw = append(keptPw, p)
+						keptSnap = append(keptSnap, pwSnap(p))
+					}
+					return shown
 				case "ent":
 					install(src)
 					if o.char != nil {
@@ -139,6 +150,12 @@ func init() {
 				panic("harness: bad op " + opk)
 			})
 			snap := "ok"
+			for i, p := range keptPw {
+				if pwSnap(p) != keptSnap[i] {
+					snap = fmt.Sprintf("CHANGED:result-of-an-earlier-call-%d", i)
+					keptSnap[i] = pwSnap(p)
+				}
+			}
 			for i, x := range objs {
 				if snapshot(x) != before[i] {
 					snap = fmt.Sprintf("CHANGED:obj%d", i)
